@@ -229,6 +229,7 @@ def run(ctx):
     cases = valcorr.validation_cases(ctx, 60 if ctx.quick else 1500, unknown=0.04)
     cases += valcorr.validation_cases(ctx, 40 if ctx.quick else 600, unknown=0.35)   # UNKNOWN outcomes at many nodes: the abort rule of the mapping
     cases += valcorr.validation_cases(ctx, 40 if ctx.quick else 600, unknown=0.02, repeat_discriminators=0.3)   # discriminators are not unique in real AHBs
+    cases += valcorr.validation_cases(ctx, 30 if ctx.quick else 400, unknown=0.02, extra_attrs=1.0)   # optional attributes of the maus model filled (line index not in list order, section names)
     valcorr.check_val_correspondence(ctx, cases, "C13")
     nontrivial = sum(oracle(ctx, c) for c in cases)
     ctx.add_eval(mapping_oracle(ctx))
